@@ -47,10 +47,33 @@ def late_child_scenario(rng, i):
     return {"id": f"c08-late-{i}", "config": {"keep": rng.chance(1, 2), "dump_each": False}, "models": [w], "ops": ops, "exprs": {}, "features": ["catch", "late-child"]}
 
 
+def cancel_scenario(rng, i):
+    """a cancel of a completed act after the steps behind it have made partial progress: some of their acts have ended, some are open"""
+    nsteps = rng.range(2, 3)
+    steps = []
+    for j in range(1, nsteps + 1):
+        acts = [{"id": f"a{j}{q}", "uses": gen.IRQ if rng.chance(3, 4) else gen.MSG, "key": f"k{j}{q}"} for q in range(rng.range(1, 3))]
+        acts[0]["uses"] = gen.IRQ
+        steps.append({"id": f"s{j}", "acts": acts})
+    w = {"id": "m1", "steps": steps}
+    ops = [["deploy", 0], ["start", "m1", {"pid": "p1", "x": 0, "y": 0}], ["runall"]]
+    for _ in range(rng.range(1, 4)):
+        ops.append(["act", "next", "p1", {"open": 0}, {}])
+        ops.append(["runall"])
+    ops.append(["act", "cancel", "p1", {"nid": "a10", "k": 0}, {}])
+    ops.append(["runall", rng.pick(["fifo", "lifo"]), rng.below(1 << 30)])
+    for _ in range(6):
+        ops.append(["act", "next", "p1", {"open": 0}, {}])
+        ops.append(["runall"])
+    return {"id": f"c08-cancel-{i}", "config": {"keep": rng.chance(1, 2), "dump_each": False}, "models": [w], "ops": ops, "exprs": {}, "features": ["cancel"]}
+
+
 def gen_scenario(seed, i):
     rng = Rng(seed * 472882027 + i)
     if i % 10 == 9:
         return late_child_scenario(rng, i)
+    if i % 10 == 4:
+        return cancel_scenario(rng, i)
     g = gen.WfGen(rng.fork("wf"), depth=rng.pick([1, 2, 2]), max_steps=3, max_branches=3, max_acts=3, p_if=15, p_branches=40,
                   needs=rng.chance(1, 5), mixed=rng.chance(1, 6), act_kinds=((gen.IRQ, 5), (gen.MSG, 3), (gen.SET, 1)), catches=rng.chance(1, 3))
     w = g.workflow("m1")
